@@ -17,14 +17,16 @@ open StunVerif StunVerif.Agent
     state and the reported instant by `d` and changes nothing else -/
 theorem step_shift (d : Nat) (s : State) (op : Op) :
     step (shiftState d s) (shiftOp d op) = (shiftState d (step s op).1, shiftOut d (step s op).2) := by
-  sorry
+  exact Agent.step_shift d s op
 
 /-- whole histories: replaying a history with every instant shifted by a constant produces the same
     replies with every reported instant shifted by the same constant -/
 theorem shift_equivariant (d : Nat) (tr : Transport) (loc : SockAddr) (ops : List Op) :
     (trace (State.init tr loc) (ops.map (shiftOp d))).map (·.2) =
       ((trace (State.init tr loc) ops).map (·.2)).map (shiftOut d) := by
-  sorry
+  have h := trace_shift d (State.init tr loc) ops
+  rw [shiftState_init] at h
+  exact h
 
 /-- presence of other agents: in any interleaving of calls to two agents, each agent's replies and
     final state are those of running its own calls alone -/
@@ -32,7 +34,7 @@ theorem independent_agents (s1 s2 : State) (ops : List Op2) :
     (run2 (s1, s2) ops).1 = (after s1 ((ops.filter (·.1)).map (·.2)), after s2 ((ops.filter (!·.1)).map (·.2))) ∧
     ((run2 (s1, s2) ops).2.filter (·.1)).map (·.2) = (trace s1 ((ops.filter (·.1)).map (·.2))).map (·.2) ∧
     ((run2 (s1, s2) ops).2.filter (!·.1)).map (·.2) = (trace s2 ((ops.filter (!·.1)).map (·.2))).map (·.2) := by
-  sorry
+  exact run2_independent s1 s2 ops
 
 /-- instants do not leak between transactions: the `now` of a call can only enter the schedule of
     the transaction that call starts or serves; every other transaction keeps its complete state -/
@@ -49,7 +51,7 @@ theorem no_leak (s : State) (op : Op) (tid : Nat)
       | .configure t _ _ _, _ => t ≠ tid
       | _, _ => True) :
     lookup (step s op).1.out tid = lookup s.out tid := by
-  sorry
+  exact step_untouched s op tid hnot
 
 /-- the only instants stored in a reachable state are instants the caller passed in: every
     `lastSend` is the `now` of some earlier send or poll call -/
@@ -57,7 +59,9 @@ theorem stored_instants_are_inputs (tr : Transport) (loc : SockAddr) (ops : List
     (r : Req) (t : Time) (h : lookup (after (State.init tr loc) ops).out tid = some r)
     (ht : r.lastSend = some t) :
     ∃ op ∈ ops, (∃ id b hc to, op = .sendReq id b hc to t) ∨ (∃ pick, op = .poll t pick) := by
-  sorry
+  rcases lastSend_after (State.init tr loc) ops tid r t h ht with ⟨r0, hl0, _⟩ | h'
+  · simp [State.init] at hl0
+  · exact h'
 
 /-- source obligation, re-evaluated from /repo on this run by the translator: the non-test text of
     agent.rs mentions no clock, thread-local, mutable static, lazy global, RNG or environment read,
